@@ -35,7 +35,9 @@ def run(ctx):
     P = ctx.prog
     enc, dec = ctx.fn(ENC), ctx.fn(DEC)
     # ------------------------------------------------------------------ (1) no panic
-    eng = NoPanic(ctx, W, [ENC, DEC])
+    providers = {f.path for f in P.fns.values() if f.impl_trait == "roughenough::kms::KmsProvider" or (f.parent and P.fns.get(f.parent) is not None and P.fns[f.parent].impl_trait == "roughenough::kms::KmsProvider")}
+    ctx.extra["provider_bodies_out_of_scope"] = sorted(providers)
+    eng = NoPanic(ctx, W, [ENC, DEC], skip_fns=providers, stop=providers)
     recs = eng.run()
     report(ctx, eng, recs)
     ctx.record("no-panic", "inventory", True, "%d potential panic sites in %d reachable functions (vacuity is excluded by the positive fixture)" % (len(recs), len(eng.reach)), nontrivial=False)
